@@ -4,27 +4,20 @@ namespace W
 /-! ## navigation -/
 def Trace.Inv (t : Trace) : Prop := t.index ≤ t.maxIndex
 
-theorem Trace.step_spec (t : Trace) (k : Int) :
-    let r : Int := (t.index : Int) + k
-    (0 ≤ r ∧ r ≤ t.maxIndex → (t.step k).2 = true ∧ ((t.step k).1.index : Int) = r) ∧
-    (¬ (0 ≤ r ∧ r ≤ t.maxIndex) → (t.step k).2 = false ∧ (t.step k).1 = t) := by
-  intro r
-  unfold Trace.step
-  constructor
-  · intro h
-    have : ¬ (r < 0 ∨ r > (t.maxIndex : Int)) := by omega
-    simp only [r] at this
-    simp [this]; omega
-  · intro h
-    have : (r < 0 ∨ r > (t.maxIndex : Int)) := by omega
-    simp only [r] at this
-    simp [this]
+theorem Trace.step_in (t : Trace) (k : Int) (h : 0 ≤ (t.index : Int) + k ∧ (t.index : Int) + k ≤ t.maxIndex) :
+    t.step k = ({ t with index := ((t.index : Int) + k).toNat }, true) := by
+  have : ¬ ((t.index : Int) + k < 0 ∨ (t.index : Int) + k > (t.maxIndex : Int)) := by omega
+  simp [Trace.step, this]
+
+theorem Trace.step_out (t : Trace) (k : Int) (h : ¬ (0 ≤ (t.index : Int) + k ∧ (t.index : Int) + k ≤ t.maxIndex)) :
+    t.step k = (t, false) := by
+  have : ((t.index : Int) + k < 0 ∨ (t.index : Int) + k > (t.maxIndex : Int)) := by omega
+  simp [Trace.step, this]
 
 theorem Trace.step_inv (t : Trace) (k : Int) (h : t.Inv) : (t.step k).1.Inv := by
-  unfold Trace.step Trace.Inv at *
-  split
-  · exact h
-  · simp; omega
+  by_cases hin : 0 ≤ (t.index : Int) + k ∧ (t.index : Int) + k ≤ t.maxIndex
+  · rw [Trace.step_in t k hin]; simp only [Trace.Inv]; omega
+  · rw [Trace.step_out t k hin]; exact h
 
 theorem indices_restore (ts : List Trace) (saved : List Nat) (h : ts.length = saved.length) :
     indices (restore ts saved) = saved := by
@@ -41,55 +34,43 @@ theorem indices_restore (ts : List Trace) (saved : List Nat) (h : ts.length = sa
 def Neutral (rec : St → Sx → Res) (c : Sx) : Prop :=
   ∀ st, ∃ v, rec st c = .ok (v, st)
 
-/-- value of c at a given index of the single trace (spec side) -/
-noncomputable def valAt (rec : St → Sx → Res) (c : Sx) (st : St) (t : Trace) (rest : List Trace) (i : Nat) : Bool :=
-  match rec { st with traces := { t with index := i } :: rest } c with
+/-- truth of c with the first trace positioned at index i (spec side) -/
+noncomputable def valAt (rec : St → Sx → Res) (c : Sx) (out : List String) (t : Trace) (rest : List Trace) (i : Nat) : Bool :=
+  match rec { traces := { t with index := i } :: rest, out := out } c with
   | .ok (v, _) => truthy v
   | .error _ => false
 
+/-- C04 core: the find loop collects exactly the positions from the current index to the end at which the
+    condition is truthy, in ascending order, and leaves the output untouched. -/
 theorem findLoop_spec (rec : St → Sx → Res) (c : Sx) (hc : Neutral rec c) :
-    ∀ (k : Nat) (st : St) (t : Trace) (rest : List Trace) (acc : List Nat),
-      st.traces = t :: rest → t.index + k = t.maxIndex + 1 →
-      ∃ st', findLoop rec c k st acc = .ok (acc ++ (List.range' t.index k).filter (valAt rec c st t rest), st')
-        ∧ st'.out = st.out ∧ (st'.traces.map (·.tid)) = (st.traces.map (·.tid)) ∧ st'.traces.length = st.traces.length := by
+    ∀ (k : Nat) (t : Trace) (rest : List Trace) (out : List String) (acc : List Nat),
+      t.index + k = t.maxIndex + 1 →
+      ∃ st', findLoop rec c k { traces := t :: rest, out := out } acc =
+          .ok (acc ++ (List.range' t.index k).filter (valAt rec c out t rest), st') ∧ st'.out = out := by
   intro k
   induction k with
-  | zero =>
-    intro st t rest acc h1 h2
-    exact ⟨st, by simp [findLoop], rfl, rfl, rfl⟩
+  | zero => intro t rest out acc _; exact ⟨{ traces := t :: rest, out := out }, by simp [findLoop], rfl⟩
   | succ k ih =>
-    intro st t rest acc h1 h2
-    obtain ⟨v, hv⟩ := hc st
-    have hst : st = { st with traces := { t with index := t.index } :: rest } := by
-      cases st; simp at h1; simp [h1]
-    have hval : valAt rec c st t rest t.index = truthy v := by
-      unfold valAt; rw [← hst, hv]
-    simp only [findLoop, hv, bind, Except.bind, h1]
+    intro t rest out acc h2
+    obtain ⟨v, hv⟩ := hc { traces := t :: rest, out := out }
+    have hval : valAt rec c out t rest t.index = truthy v := by
+      unfold valAt; rw [hv]
+    have hvv : valAt rec c out { t with index := t.index + 1 } rest = valAt rec c out t rest := rfl
+    simp only [findLoop, hv, bind, Except.bind]
     by_cases hk : k = 0
     · subst hk
-      have hstep : (t.step 1) = (t, false) := by
-        unfold Trace.step; simp; omega
-      simp only [hstep, List.range', List.filter, hval]
-      refine ⟨st, ?_, rfl, rfl, rfl⟩
-      split <;> simp
-    · have hstep : (t.step 1) = ({ t with index := t.index + 1 }, true) := by
-        unfold Trace.step
-        have : ¬ ((t.index : Int) + 1 < 0 ∨ (t.index : Int) + 1 > (t.maxIndex : Int)) := by omega
-        simp [this]; omega
-      simp only [hstep]
-      have := ih { st with traces := { t with index := t.index + 1 } :: rest } { t with index := t.index + 1 } rest
-        (if truthy v then acc ++ [t.index] else acc) rfl (by simp; omega)
-      obtain ⟨st', h1', h2', h3', h4'⟩ := this
-      refine ⟨st', ?_, ?_, ?_, ?_⟩
-      · simp only [if_true] at *
-        rw [h1']
-        have hvv : valAt rec c { st with traces := { t with index := t.index + 1 } :: rest } { t with index := t.index + 1 } rest
-            = valAt rec c st t rest := by
-          funext i; unfold valAt; rfl
-        simp only [List.range', List.filter, hval, hvv]
-        split <;> simp
-      · simpa using h2'
-      · simpa [h1] using h3'
-      · simpa [h1] using h4'
+      rw [Trace.step_out t 1 (by omega)]
+      refine ⟨{ traces := t :: rest, out := out }, ?_, rfl⟩
+      simp only [List.range', List.filter, hval]
+      cases truthy v <;> simp
+    · rw [Trace.step_in t 1 (by omega)]
+      have hidx : ((t.index : Int) + 1).toNat = t.index + 1 := by omega
+      simp only [hidx]
+      obtain ⟨st', h1', h2'⟩ := ih { t with index := t.index + 1 } rest out
+        (if truthy v then acc ++ [t.index] else acc) (by simp; omega)
+      refine ⟨st', ?_, h2'⟩
+      rw [h1', hvv]
+      simp only [List.range', List.filter, hval]
+      cases truthy v <;> simp
 
 end W
